@@ -627,8 +627,12 @@ macro_rules! indexed_scripts {
         $t.push(format!("query_unmapped done{after}"));
     }};
     (@unmapped no, $m:ident, $t:ident, $r:ident, $vm:ident, $case:ident, $render:expr) => {{
-        unreachable!("no query_unmapped for this format")
+        no_query_unmapped();
     }};
+}
+
+fn no_query_unmapped() {
+    unreachable!("no query_unmapped for this format")
 }
 
 macro_rules! finish {
@@ -1302,6 +1306,9 @@ pub fn compare(ch: &Chooser, case: &RCase, script: &Script, got: &Tr, how: &dyn 
         let symptom = if kind == "q" && a.starts_with("query") && a.ends_with(|c: char| c.is_ascii_digit() || c == 'e') && a.contains(" done") {
             // the sync query yields a record where the async query is already exhausted
             "async-query-ends-early".to_string()
+        } else if kind == "query" && e.contains(" done") && line_kind(a) == "q" {
+            // the async query yields a record where the sync query is already exhausted
+            "async-query-yields-more-records".to_string()
         } else if line_kind(a) != kind {
             format!("outcome-differs-async-{}", line_kind(a))
         } else if strip_vpos(e) == strip_vpos(a) {
